@@ -19,6 +19,7 @@ import fiddle as fdl
 from vf import gen
 from vf import model as M
 from vf.common import safe_repr
+from vt import nodes as vnodes
 from vt import kinds, rec, sigs
 from vt.rec import Sentinel
 
@@ -40,7 +41,7 @@ ASSUMPTIONS = [
 MINIMUMS = {
     'quick': {'evaluations': 3000, 'calls': 8000, 'af_nested_depth>=2': 150, 'override_of_factory_param': 100,
               'af_invocations_checked': 3000, 'passthrough_identity_checked': 2000, 'nested_partial_probed': 200,
-              'failing_factory_calls': 100, 'concurrent_call_rounds': 100},
+              'failing_factory_calls': 100, 'concurrent_call_rounds': 100, 'late_registered_cases': 300},
     'thorough': {'evaluations': 1000},
 }
 
@@ -51,7 +52,12 @@ ROOT_FNS = [kinds.node, kinds.target3, kinds.PosInit, kinds.Leaf, kinds.DC, kind
 
 def plan(tier):
   n = 400 if tier == 'quick' else 30000
-  return [{'name': f'p{i}', 'kind': 'main', 'n': n, 'start': i * n} for i in range(16)]
+  nl = 250 if tier == 'quick' else 20000
+  return ([{'name': f'p{i}', 'kind': 'main', 'n': n, 'start': i * n} for i in range(16)] +
+          [{'name': f'late{i}', 'kind': 'late', 'n': nl, 'start': i * nl} for i in range(2)])
+
+
+EXTRA_SEQ_TYPES = []
 
 
 class G:
@@ -79,7 +85,7 @@ class G:
     if self.shareable and r < 0.33:
       return rng.choice(self.shareable)
     if r < 0.55:
-      typ = rng.choice(['list', 'tuple', 'dict', 'point'])
+      typ = rng.choice(['list', 'tuple', 'dict', 'point'] + EXTRA_SEQ_TYPES)
       if typ == 'dict':
         n = gen.Map('dict', [(k, self.value(depth - 1, allow_af, cdepth + 1))
                              for k in rng.sample(['k', 'j', 7], rng.randint(0, 2))])
@@ -200,8 +206,13 @@ def verify(node, v, ctx: Ctx, call_k, in_af):
     for k, c in node.items:
       verify(c, v[k], ctx, call_k, in_af)
   else:
-    exp_t = {'list': list, 'tuple': tuple, 'point': kinds.Point}[node.typ]
-    if type(v) is not exp_t or len(v) != len(node.items):
+    exp_t = {'list': list, 'tuple': tuple, 'point': kinds.Point, 'latebox': vnodes.LateBox}[node.typ]
+    if node.typ == 'latebox' and type(v) is exp_t:
+      v = v.items
+    elif type(v) is not exp_t:
+      ctx.bad('container-structure', f'expected {node.typ}, got {safe_repr(v, 80)}')
+      return
+    if len(v) != len(node.items):
       ctx.bad('container-structure', f'expected {node.typ} of {len(node.items)}, got {safe_repr(v, 80)}')
       return
     for c, x in zip(node.items, v):
@@ -529,5 +540,16 @@ def describe(fn):
 
 
 def run_shard(spec, seed, acc):
+  if spec['kind'] == 'late':
+    # a container type that fiddle first meets as an opaque leaf and that becomes traversable
+    # afterwards: factories inside it must be evaluated per call from then on
+    for _ in range(5):
+      p = fdl.Partial(kinds.node, a=vnodes.LateBox([1, [2]]), b=[vnodes.LateBox([3])])
+      fdl.build(p)(c=1)
+      acc.obs('built_before_registration')
+    vnodes.register_latebox()
+    EXTRA_SEQ_TYPES[:] = ['latebox', 'latebox']
   for _, rng in acc.cases(spec):
     run_case(rng, acc)
+    if spec['kind'] == 'late':
+      acc.obs('late_registered_cases')
